@@ -499,6 +499,7 @@ def run(ctx):
     lib = ElemLib(ctx.repo)
     gl = GaussLib(ctx.repo)
     congruence_rules(ctx, lib)
+    ctx.attempt(pointwise_inverse_rule, ctx, lib)
     rank_rules(ctx, lib, gl)
     weights_rule(ctx, gl, lib)
     beamops.rule(ctx, lib, "R2.7")
@@ -625,3 +626,48 @@ def anisotropic_operator_rule(ctx, lib, rid):
             r.fail(f.qualname, f"dim{dim}", f.file, f.lineno, "GradU_A_GradV", f"dim {dim}: {bad}: for a non-symmetric A the built-in operator integrates grad(u) . A^T . grad(v) (or another contraction), not the form it is documented for")
         else:
             r.ok(f"GradU_A_GradV dim {dim}: non-symmetric A, K_e[a,b] == k*wJ*dN_a . A . dN_b")
+
+
+def pointwise_inverse_rule(ctx, lib, rid="R2.12"):
+    """'no missing zero-energy mode': the physical gradient dN/dx = invF . dN/dxi uses, at EVERY integration point, the
+    inverse of the Jacobian matrix AT THAT POINT.  Get_invF_e_pg is interpreted on curved (non-affine) TRI6 and TETRA10
+    elements -- a mid-side node moved off its chord, where the Jacobian varies inside the element -- at two integration
+    points: invF[e, p] . F[e, p] must be the identity at both.  (An inverse taken at one point and repeated keeps
+    translations in the kernel of K but gives a rigid rotation strain energy.)"""
+    from types import SimpleNamespace
+
+    from ..femchain import Chain
+
+    repo = ctx.repo
+    f = repo.method("EasyFEA.FEM._group_elem._GroupElem", "Get_invF_e_pg")
+    r = ctx.rule(rid, "Get_invF_e_pg is the point-wise inverse of Get_F_e_pg on curved simplex elements (invF[e,p] F[e,p] == I at every integration point)", min_instances=2)
+    cases = {"TRI6": ([(Q(1, 6), Q(1, 6)), (Q(2, 3), Q(1, 6))], 3, (Q(1, 7), Q(-1, 9))), "TETRA10": ([(Q(1, 5), Q(1, 6), Q(1, 7)), (Q(1, 2), Q(1, 6), Q(1, 8))], 4, (Q(1, 7), Q(-1, 9), Q(1, 11)))}
+    for name, (pts, moved, delta) in cases.items():
+        r.instance(fn=f.qualname)
+        ch = Chain(lib, name, symbolic_vertices=False, fe=True)
+        dim = ch.ed.dim
+        a = ch.obj.attrs
+        coord = a["coord"]
+        rows = [[coord[n, k] for k in range(3)] for n in range(coord.shape[0])]
+        for k in range(dim):
+            rows[moved][k] = rows[moved][k] + delta[k]  # the first mid-side node leaves its chord: a curved edge
+        a["coord"] = XArray.from_nested(rows)
+        nP = len(pts)
+        a["Get_gauss"] = lambda mt=None, pts=pts, nP=nP, dim=dim: SimpleNamespace(coord=XArray((nP, dim), [v for p in pts for v in p]), nPg=nP, weights=XArray((nP,), [Q(1, 6)] * nP))
+        a["Get_weight_pg"] = lambda mt=None, nP=nP: XArray((nP,), [Q(1, 6)] * nP)
+        F = XArray.from_nested(ch.F())
+        iF = XArray.from_nested(ch.invF())
+        bad = None
+        if iF.shape != F.shape:
+            bad = f"shape {iF.shape} for F of shape {F.shape}"
+        else:
+            for p in range(nP):
+                for i in range(dim):
+                    for j in range(dim):
+                        tot = sum((iF[0, p, i, k] * F[0, p, k, j] for k in range(dim)), Q(0))
+                        if bad is None and not is_zero(Poly.of(tot) - (1 if i == j else 0)):
+                            bad = f"(invF . F)[{i}][{j}] at integration point {p} is {tot}"
+        if bad:
+            r.fail(f.qualname, f"pointwise-inverse:{name}", f.file, f.lineno, "_GroupElem.Get_invF_e_pg", f"curved {name} (one mid-side node off its chord): {bad}: the inverse Jacobian is not taken at the integration point, dN/dx is not the physical gradient there and a rigid rotation stores strain energy (K loses a rigid-body mode on curved meshes)")
+        else:
+            r.ok(f"curved {name}: invF F == I at {nP} integration points")
